@@ -419,6 +419,9 @@ func publishedBefore(r *Run, f *ssa.Function, obj ssa.Value, allocIn ssa.Instruc
 						continue
 					}
 				}
+				if cal != nil && nonEscapingParam(r, cal, i, 0) {
+					continue // the callee only initialises the object: it keeps no reference to it
+				}
 				check(in, "a call to "+fn(cal))
 			}
 		case *ssa.MakeClosure:
@@ -452,4 +455,117 @@ func familyParam(r *Run, cal *ssa.Function, i int) bool {
 		}
 	}
 	return false
+}
+
+// nonEscapingParam: the callee does not let its i-th parameter (or an address derived from it) escape - it is not
+// stored into memory as a value, not returned, not captured by a closure, not handed to a goroutine or to an atomic
+// store, and passed on only to std callees (which keep it inside the object, e.g. sync.NewCond(&x.mu)) or to
+// in-package callees that are non-escaping themselves.
+func nonEscapingParam(r *Run, cal *ssa.Function, i int, depth int) bool {
+	if cal == nil || cal.Blocks == nil || i >= len(cal.Params) || depth > 2 {
+		return false
+	}
+	alias := map[ssa.Value]bool{cal.Params[i]: true}
+	for changed := true; changed; {
+		changed = false
+		core.Instrs(cal, func(in ssa.Instruction) {
+			v, ok := in.(ssa.Value)
+			if !ok || alias[v] {
+				return
+			}
+			var src ssa.Value
+			switch x := in.(type) {
+			case *ssa.Convert:
+				src = x.X
+			case *ssa.ChangeType:
+				src = x.X
+			case *ssa.MakeInterface:
+				src = x.X
+			case *ssa.FieldAddr:
+				src = x.X
+			case *ssa.IndexAddr:
+				src = x.X
+			case *ssa.Slice:
+				src = x.X
+			case *ssa.Phi:
+				for _, e := range x.Edges {
+					if alias[e] {
+						src = e
+					}
+				}
+			}
+			if src != nil && alias[src] {
+				alias[v] = true
+				changed = true
+			}
+		})
+	}
+	ok := true
+	core.Instrs(cal, func(in ssa.Instruction) {
+		if !ok {
+			return
+		}
+		switch x := in.(type) {
+		case *ssa.Store:
+			if alias[x.Val] {
+				ok = false
+			}
+		case *ssa.Return:
+			for _, res := range x.Results {
+				if alias[res] {
+					ok = false
+				}
+			}
+		case *ssa.MakeClosure:
+			for _, b := range x.Bindings {
+				if alias[b] {
+					ok = false
+				}
+			}
+		case *ssa.Send:
+			if alias[x.X] {
+				ok = false
+			}
+		case ssa.CallInstruction:
+			cc := x.Common()
+			if core.IsBuiltinCall(x) != "" {
+				return
+			}
+			_, isGo := in.(*ssa.Go)
+			_, isDefer := in.(*ssa.Defer)
+			for ai, a := range cc.Args {
+				if !alias[a] {
+					continue
+				}
+				if isGo || isDefer {
+					ok = false
+					return
+				}
+				if op, _, isAt := core.AtomicOp(x); isAt {
+					if ai > 0 && op != "Load" {
+						ok = false
+					}
+					continue
+				}
+				c2 := core.Callee(x)
+				if c2 == nil {
+					ok = false // dynamic call
+					return
+				}
+				if _, inLib := r.E.Of[c2]; !inLib {
+					continue
+				}
+				if r.M.Acquire[c2] || r.M.Release[c2] {
+					continue
+				}
+				if !nonEscapingParam(r, c2, ai, depth+1) {
+					ok = false
+				}
+			}
+			if cc.IsInvoke() && alias[cc.Value] {
+				ok = false
+			}
+		}
+	})
+	return ok
 }
